@@ -150,14 +150,22 @@ def judgeDir (mp : Nat) (ids : List Nat) (progs : List (List WSpec)) (trunkHex :
     | none => agree := false; why := s!"{dir}: the {frames.length} trunk frames are not a concatenation of whole writes"
     | some ord =>
       raced := (ord.zip (ord.drop 1)).any fun (a, b) => a > b
-      match linearise ord payloads with
+      -- trusted check of the witness: the frames of the writes, linearised in that order, are
+      -- exactly the decoded frames (and the tail is empty).  By `decode_sound` and
+      -- `encodeWrites_eq` this is equivalent to `encodeWrites mp ws = some trunk`; small
+      -- trunks are also re-encoded and compared byte for byte.
+      match linearise ord (payloads.map fun p => p.map fun (id, b) => (id, b)) with
       | none => agree := false; why := s!"{dir}: internal: order does not linearise"
       | some ws =>
-        match encodeWrites mp ws with
-        | none => agree := false; why := s!"{dir}: model write loop faults"
-        | some bytes =>
-          if bytes != trunk then
-            agree := false; why := s!"{dir}: model encoding of the linearised writes differs from the tapped trunk"
+        let wsFrames := ws.flatMap fun (id, b) => (framesOfWrite mp id b).getD []
+        if wsFrames != frames then
+          agree := false; why := s!"{dir}: frames of the linearised writes differ from the trunk frames"
+        else if trunk.length ≤ 2000000 then
+          match encodeWrites mp ws with
+          | none => agree := false; why := s!"{dir}: model write loop faults"
+          | some bytes =>
+            if bytes != trunk then
+              agree := false; why := s!"{dir}: model encoding of the linearised writes differs from the tapped trunk"
   -- … and every reader got exactly the frames addressed to its id, in order
   if agree then
     for (id, fr) in got do
@@ -204,7 +212,7 @@ def getOp (j : Json) : Except String Op := do
   let kind ← match (← getStr j "op") with
     | "open" => pure OpKind.open | "dial" => pure .dial | "listen" => pure .listen
     | "accept" => pure .accept | "acceptbg" => pure .acceptbg | "lclose" => pure .lclose
-    | "write" => pure .write | "read" => pure .read | "readbg" => pure .readbg
+    | "write" => pure .write | "read" => pure .read | "readbg" => pure .readbg | "join" => pure .join
     | "closeconn" => pure .closeconn | "closemux" => pure .closemux | "cut" => pure .cut
     | k => throw s!"unknown op {k}"
   let len ← getNat j "len"
@@ -245,6 +253,21 @@ structure SpecOut where
   sig : String := ""
   tags : List String := []
 
+/-- eventual result of op `i`: a background op's result is reported by its `join` or, if it
+    was never joined, at the end of the script -/
+def finalRes (ops : Array Op) (res : Array Seen) (late : List (Nat × Seen)) (i : Nat) : Seen :=
+  match late.find? (·.1 == i) with
+  | some (_, r) => r
+  | none =>
+    let op : Op := ops[i]!
+    if op.kind == OpKind.readbg || op.kind == OpKind.acceptbg then
+      match (List.range ops.size).find? fun j =>
+          let oj : Op := ops[j]!
+          oj.kind == OpKind.join && oj.k == i with
+      | some j => res[j]!
+      | none => res[i]!
+    else res[i]!
+
 /-- The C11/C10 property evaluated on a script's observation alone (no model):
     nothing hangs once an end is known to be closed, closing never hangs, a Write after the
     close fails, all Read errors of one end are equal, and what a handle received is a
@@ -254,9 +277,7 @@ def scriptSpec (ops : Array Op) (res : Array Seen) (late : List (Nat × Seen)) (
   let mut out : SpecOut := {}
   let fail := fun (o : SpecOut) (why sig : String) => if o.ok then { o with ok := false, why := why, sig := sig } else o
   -- eventual result of op i
-  let final := fun (i : Nat) => match late.find? (·.1 == i) with
-    | some (_, r) => r
-    | none => res[i]!
+  let final := finalRes ops res late
   for x in [0, 1] do
     -- when is end x known to be closed?  (first Read error on a conn that was not closed
     -- individually, or a returned mux Close)
